@@ -1,6 +1,7 @@
 package props
 
 import (
+	"bufio"
 	"errors"
 	"fmt"
 	"io"
@@ -30,6 +31,9 @@ type C07Script struct {
 	Reads    []parties.ReadOp `json:"reads,omitempty"`
 	Default  string           `json:"default_read,omitempty"`
 	ProbePID []int            `json:"probe_pids,omitempty"`
+	// Wrap: the reader handed to ReadPAT is the SimReader behind a bufio.Reader of this size
+	// (0: the SimReader itself). What kind of io.Reader it is must not matter.
+	Wrap int `json:"wrap,omitempty"`
 }
 
 type c07 struct{}
@@ -41,14 +45,14 @@ func (c07) New() interface{} { return &C07Script{} }
 func (c07) Info() core.Info {
 	return core.Info{
 		Runs: map[string]int{"quick": 1500000, "thorough": 100000000},
-		Rule: "Each run builds one abstract PAT (0..42 entries, distinct program numbers incl. optional program 0, 13-bit PIDs biased above 255, random reserved bits), serialises it with the reference serialiser into a PID-0 packet (with or without adaptation field), places it by a scripted multiplexer among 0..30 packets of other PIDs (optionally followed by a different later PAT, optionally absent, optionally cut by end of stream) and reads it back through ReadPAT over a SimReader with scripted Read outcomes; the payload and 188-byte-packet carriers are decoded in the same run and compared. Non-trivial = at least one reach probe fired.",
+		Rule: "Each run builds one abstract PAT (0..42 entries, distinct program numbers incl. optional program 0, 13-bit PIDs biased above 255, random reserved bits), serialises it with the reference serialiser into a PID-0 packet (with or without adaptation field), places it by a scripted multiplexer among 0..30 packets of other PIDs (optionally followed by a different later PAT, optionally absent, optionally cut by end of stream) and reads it back through ReadPAT over a SimReader with scripted Read outcomes; the payload and 188-byte-packet carriers are decoded in the same run and compared. In a quarter of the error-free runs the reader handed to ReadPAT is a bufio.Reader (16..4096 bytes) over the SimReader; foreign traffic includes PIDs 4..15 and payloads full of fake packet starts. Non-trivial = at least one reach probe fired.",
 		Real: []string{"psi.ReadPAT", "psi.NewPAT", "pat.NumPrograms/ProgramMap/SPTSpmtPID", "psi.IsPMT", "packet.Payload", "io.ReadFull (stdlib)"},
 		Stub: []string{"PAT source + reference serialiser/CRC", "multiplexer (scripted picks)", "SimReader"},
 		Assumptions: []string{
 			"pointer_field is 0 (the statement does not quantify over pointer_field for the PAT) and program numbers are distinct",
 			"after an injected reader error ReadPAT may return that error or the exact answer; nothing else is relaxed",
 		},
-		RequiredProbes: []string{"entries_0", "entries_1_program", "entries_1_network", "entries_ge3", "entries_42", "pid_gt_255", "pat_after_foreign", "no_pat", "eof_inside_pat", "one_byte_reads", "second_pat_ignored", "pat_with_af", "caller_scribbles_program_map", "held_pat_rechecked", "af_only_packet_before_pat", "buffer_reused_for_next_pat", "pat_after_70000_packets"},
+		RequiredProbes: []string{"entries_0", "entries_1_program", "entries_1_network", "entries_ge3", "entries_42", "pid_gt_255", "pat_after_foreign", "no_pat", "eof_inside_pat", "one_byte_reads", "second_pat_ignored", "pat_with_af", "caller_scribbles_program_map", "held_pat_rechecked", "af_only_packet_before_pat", "buffer_reused_for_next_pat", "pat_after_70000_packets", "reader_is_a_bufio_reader", "bufio_reader_and_first_packet_pid_4_to_15"},
 	}
 }
 
@@ -96,6 +100,9 @@ func (c07) Gen(r *core.Rand, tier string) interface{} {
 	} else {
 		s.Reads = parties.GenReadOps(r, r.Range(1, 20), style, r.Chance(1, 8))
 	}
+	if r.Chance(1, 4) {
+		s.Wrap = r.Pick(16, 188, 189, 4096)
+	}
 	for i := r.Range(1, 4); i > 0; i-- {
 		if n > 0 && r.Bool() {
 			s.ProbePID = append(s.ProbePID, s.PAT.Entries[r.Intn(n)].PID)
@@ -121,6 +128,23 @@ func c07Foreign(i, salt int) parties.Pkt {
 		copy(p[6:], []byte{0x00, 0x01, 0x02, 0x03, 0x7E, 0x00})
 		for k := 12; k < 188; k++ {
 			p[k] = 0xFF
+		}
+		return p
+	}
+	if (i*11+salt)%7 == 0 {
+		// a PID from the range a sync heuristic refuses (4..15; they are "other PIDs" all the
+		// same), or an ordinary one, whose payload is full of things that look like packet starts
+		var p parties.Pkt
+		pid := 4 + (i+salt)%12
+		if (i+salt)%4 == 0 {
+			pid = 0x100 + i
+		}
+		p[0], p[1], p[2], p[3] = 0x47, byte(pid>>8), byte(pid), 0x10|byte(i&0x0f)
+		for k := 4; k < 188; k++ {
+			p[k] = byte(k*13 + salt)
+		}
+		for k := 5 + salt%40; k+4 <= 188; k += 23 + salt%17 {
+			p[k], p[k+1], p[k+2], p[k+3] = 0x47, byte(0x01+salt%3), byte(k), 0x10
 		}
 		return p
 	}
@@ -376,7 +400,15 @@ func (c07) Exec(script interface{}, c *core.Ctx) {
 	sr.DefaultKind = s.Default
 	var p psi.PAT
 	var err error
-	if !c.Call("psi.ReadPAT", func() { p, err = psi.ReadPAT(sr) }) {
+	var rd io.Reader = sr
+	if s.Wrap > 0 && !parties.HasErrOps(s.Reads) {
+		rd = bufio.NewReaderSize(sr, s.Wrap)
+		c.Probe("reader_is_a_bufio_reader")
+		if patIdx > 0 && seq[0][1]&0x1f == 0 && seq[0][2] >= 4 && seq[0][2] <= 15 {
+			c.Probe("bufio_reader_and_first_packet_pid_4_to_15")
+		}
+	}
+	if !c.Call("psi.ReadPAT", func() { p, err = psi.ReadPAT(rd) }) {
 		return
 	}
 	c.Log("readpat err=%v reads=%d pos=%d", err, sr.Calls, sr.Pos())
@@ -577,6 +609,11 @@ func (c07) Shrink(script interface{}) []interface{} {
 		out = append(out, n)
 		n = cp()
 		n.Foreign = s.Foreign / 2
+		out = append(out, n)
+	}
+	if s.Wrap > 0 {
+		n := cp()
+		n.Wrap = 0
 		out = append(out, n)
 	}
 	if len(s.Picks) > 0 {
